@@ -123,6 +123,8 @@ def goalF : Nat → Bool → P G
       | [] => none
     else if t == "consr" then t3 (consG ord0)
     else if t == "emptyr" then t1 (emptyG ord0)
+    else if t == "firstr" then t2 (firstG ord0 dfs)
+    else if t == "restr" then t2 (restG ord0 dfs)
     else if t == "infd" then
       match term ts with
       | some (x, ts) => match dom ts with
